@@ -16,3 +16,5 @@ mod c03i;
 mod c04;
 #[cfg(kani)]
 mod sess;
+#[cfg(kani)]
+mod c10p;
